@@ -5,7 +5,11 @@ cp_mode_dot / tucker_to_tensor / tucker_mode_dot / tt_to_tensor / tr_to_tensor /
 svd_decompress_parafac2_tensor, toleranced on Q for cp_normalize / tucker_normalize / parafac2_normalise /
 from_CPTensor / svd_compress_tensor_slices (square roots and QR / SVD answers are data whose contracts are checked inside Coq).
 Predicates (independent NumPy reconstructions): dense tensor before == after, advertised canonical form,
-factorised mode product == dense mode product, operand of copy=True calls intact (second product on the same object)."""
+factorised mode product == dense mode product, operand of copy=True calls intact (second product on the same object).
+Round 7 (C04_r7.py): complex / float32 cores for pad_tt_rank (Gaussian integers, exact), complex mode products, the compress -> fit ->
+decompress pipeline on slice lists of mixed heights, TuckerTensor object methods and svd_decompress's projection list on a heap;
+source tie for the loop of svd_decompress_parafac2_tensor (gen_decompress); one Print Assumptions question for all theorems;
+cases dealt round-robin over the shards."""
 import contextlib, io, itertools, random
 import numpy as np
 from harness import common as C
@@ -811,6 +815,110 @@ def gen_rank_limit(pre_module):
     return f"Definition rank_limit_src (n_cols : nat) (max_rank : option nat) : nat := {env['rank_limit']}.\n"
 
 
+def gen_decompress(pre_module):
+    """svd_decompress_parafac2_tensor: the loop `for i, projection in enumerate(projections)` is executed symbolically once for a missing
+    loading (None) and once for a present one; the value finally stored in projections[i] on each path becomes dec_step_src.
+    Anything the executor does not understand (a return / break / extra test before or inside the loop, an index other than i) is
+    Untranslatable: the tie is then reported broken, never skipped."""
+    fn = find_function(pre_module, "svd_decompress_parafac2_tensor")
+    body = [n for n in fn.body if not (isinstance(n, ast.Expr) and isinstance(n.value, ast.Constant) and isinstance(n.value.value, str))]
+    if len(body) < 3:
+        raise Untranslatable("body of svd_decompress_parafac2_tensor")
+    unpack = body[0]
+    if not (isinstance(unpack, ast.Assign) and isinstance(unpack.targets[0], ast.Tuple) and [getattr(e, "id", None) for e in unpack.targets[0].elts] == ["weights", "factors", "projections"]
+            and isinstance(unpack.value, ast.Name) and unpack.value.id == fn.args.args[0].arg):
+        raise Untranslatable("first statement is not `weights, factors, projections = parafac2_tensor`")
+    loads = fn.args.args[1].arg
+    rest = body[1:]
+    loop = None
+    for k, st in enumerate(rest):
+        if isinstance(st, ast.For):
+            loop = st; after = rest[k + 1:]
+            break
+        # before the loop only a re-binding of `projections` to a new list of the same entries is understood
+        ok = isinstance(st, ast.Assign) and len(st.targets) == 1 and isinstance(st.targets[0], ast.Name) and st.targets[0].id == "projections"
+        if ok:
+            v = st.value
+            ok = ((isinstance(v, ast.Call) and isinstance(v.func, ast.Attribute) and v.func.attr == "copy" and isinstance(v.func.value, ast.Name) and v.func.value.id == "projections" and not v.args)
+                  or (isinstance(v, ast.Call) and isinstance(v.func, ast.Name) and v.func.id == "list" and len(v.args) == 1 and isinstance(v.args[0], ast.Name) and v.args[0].id == "projections")
+                  or (isinstance(v, ast.ListComp) and len(v.generators) == 1 and isinstance(v.generators[0].iter, ast.Name) and v.generators[0].iter.id == "projections"
+                      and not v.generators[0].ifs and isinstance(v.elt, ast.Name) and isinstance(v.generators[0].target, ast.Name) and v.elt.id == v.generators[0].target.id)
+                  or (isinstance(v, ast.Subscript) and isinstance(v.value, ast.Name) and v.value.id == "projections" and isinstance(v.slice, ast.Slice)
+                      and v.slice.lower is None and v.slice.upper is None and v.slice.step is None)
+                  or (isinstance(v, ast.Name) and v.id == "projections"))
+        if not ok:
+            raise Untranslatable(f"statement before the loop: {ast.dump(st)[:100]}")
+    if loop is None:
+        raise Untranslatable("no for-loop in svd_decompress_parafac2_tensor")
+    it = loop.iter
+    if not (isinstance(loop.target, ast.Tuple) and len(loop.target.elts) == 2 and all(isinstance(e, ast.Name) for e in loop.target.elts)
+            and isinstance(it, ast.Call) and isinstance(it.func, ast.Name) and it.func.id == "enumerate" and len(it.args) == 1
+            and isinstance(it.args[0], ast.Name) and it.args[0].id == "projections" and not loop.orelse):
+        raise Untranslatable("loop header is not `for i, projection in enumerate(projections)`")
+    ivar, pvar = loop.target.elts[0].id, loop.target.elts[1].id
+    if not (len(after) == 1 and isinstance(after[0], ast.Return)):
+        raise Untranslatable("statements after the loop")
+    rv = after[0].value
+    if not (isinstance(rv, ast.Call) and len(rv.args) == 1 and isinstance(rv.args[0], ast.Tuple)
+            and [getattr(e, "id", None) for e in rv.args[0].elts] == ["weights", "factors", "projections"]):
+        raise Untranslatable("return value is not Parafac2Tensor((weights, factors, projections))")
+
+    def is_entry(e, arr):
+        return isinstance(e, ast.Subscript) and isinstance(e.value, ast.Name) and e.value.id == arr and isinstance(e.slice, ast.Name) and e.slice.id == ivar
+
+    def ev(e, env, some):
+        if isinstance(e, ast.Name) and e.id in env:
+            return env[e.id]
+        if is_entry(e, loads):
+            return "@L"
+        if is_entry(e, "projections"):
+            return env["@cur"]
+        if isinstance(e, ast.Call) and len(e.args) == 2 and not e.keywords and (
+                (isinstance(e.func, ast.Attribute) and e.func.attr in ("matmul", "dot")) or (isinstance(e.func, ast.Name) and e.func.id in ("matmul", "dot"))):
+            a, b = ev(e.args[0], env, some), ev(e.args[1], env, some)
+            if "@L" in (a, b) and not some:
+                raise Untranslatable("a missing loading is used in a product")
+            a, b = ("Lm" if a == "@L" else a), ("Lm" if b == "@L" else b)
+            return f"(matmul Op {a} {b})"
+        raise Untranslatable(ast.dump(e)[:100])
+
+    def run(stmts, env, some):
+        """-> True when the iteration ended (continue)"""
+        for st in stmts:
+            if isinstance(st, ast.Continue):
+                return True
+            if isinstance(st, ast.Assign) and len(st.targets) == 1 and isinstance(st.targets[0], ast.Name):
+                env[st.targets[0].id] = ev(st.value, env, some)
+            elif isinstance(st, ast.Assign) and len(st.targets) == 1 and is_entry(st.targets[0], "projections"):
+                env["@cur"] = ev(st.value, env, some)
+            elif isinstance(st, ast.If):
+                t = st.test
+                if not (isinstance(t, ast.Compare) and len(t.ops) == 1 and isinstance(t.ops[0], (ast.Is, ast.IsNot)) and isinstance(t.comparators[0], ast.Constant)
+                        and t.comparators[0].value is None and ev(t.left, env, some) == "@L"):
+                    raise Untranslatable("test inside the loop: " + ast.dump(t)[:100])
+                truth = (not some) if isinstance(t.ops[0], ast.Is) else some
+                if run(st.body if truth else st.orelse, env, some):
+                    return True
+            else:
+                raise Untranslatable("statement inside the loop: " + type(st).__name__)
+        return False
+
+    terms = {}
+    for some in (True, False):
+        env = {pvar: "P", "@cur": "P"}
+        run(loop.body, env, some)
+        terms[some] = env["@cur"]
+    if "@L" in terms.values():
+        raise Untranslatable("a loading matrix is stored as a projection")
+    return ("Section G.\nContext {F : Type} (Op : fops F).\n"
+            f"Definition dec_step_src (L : option (mat F)) (P : mat F) : mat F := match L with Some Lm => {terms[True]} | None => {terms[False]} end.\nEnd G.\n")
+
+
+LEMMA_DECOMPRESS = '''
+Lemma decompress_src_ok : forall (F : Type) (Op : fops F) (Ps : list (mat F)) (Ls : list (option (mat F))),
+  decompress_projs Op Ps Ls = map (fun p => dec_step_src Op (snd p) (fst p)) (combine Ps Ls).
+Proof. intros F Op. induction Ps as [|P Ps IH]; intros [|L Ls]; simpl; try reflexivity. rewrite IH. destruct L; reflexivity. Qed.
+'''
 LEMMA_PAD = '''
 Lemma pad_src_ok : forall i n npad pb, 0 < n -> lpad_src i n npad pb = lpad n npad pb i /\\ rpad_src i n npad pb = rpad n npad pb i.
 Proof.
@@ -851,7 +959,7 @@ def generate_source_lemmas(tt_module, pre_module):
     Both lemmas decide: the padding amounts are the advertised enlarged ranks, the rank limit is the documented meaning of
     max_rank ("the maximum rank to allow in the datasets after compression") and selects what gets compressed."""
     out = []
-    for gen, mod, lemma in ((gen_pad, tt_module, LEMMA_PAD), (gen_rank_limit, pre_module, LEMMA_RANK)):
+    for gen, mod, lemma in ((gen_pad, tt_module, LEMMA_PAD), (gen_rank_limit, pre_module, LEMMA_RANK), (gen_decompress, pre_module, LEMMA_DECOMPRESS)):
         try:
             out.append(SRC_HEADER + gen(mod) + lemma)
         except Untranslatable as e:
@@ -878,7 +986,8 @@ def source_tie(chk):
         tt = importlib.import_module("tensorly.tt_tensor"); pre = importlib.import_module("tensorly.preprocessing")
         res = {}
         what = {"pad_src_ok": ("PadSrc.v", "pad_tt_rank", "the padding amounts of pad_tt_rank in the tensorly source no longer equal lpad / rpad of the model"),
-                "rank_limit_src_ok": ("RankSrc.v", "svd_compress_tensor_slices", "the rank limit of svd_compress_tensor_slices in the tensorly source is no longer min(n_cols, max_rank) / n_cols as in the model")}
+                "rank_limit_src_ok": ("RankSrc.v", "svd_compress_tensor_slices", "the rank limit of svd_compress_tensor_slices in the tensorly source is no longer min(n_cols, max_rank) / n_cols as in the model"),
+                "decompress_src_ok": ("DecompSrc.v", "svd_decompress_parafac2_tensor", "the loop of svd_decompress_parafac2_tensor in the tensorly source no longer stores L_i P_i where a loading is given and P_i otherwise, as decompress_projs of the model does")}
         for (lemma, (fname, fn_name, msg)), text in zip(what.items(), generate_source_lemmas(tt, pre)):
             if isinstance(text, Untranslatable):
                 res[lemma] = "broken (untranslatable source)"
